@@ -56,14 +56,14 @@ extern "C" {
 #endif
 
 typedef struct {
-    unsigned int tot_len;
+    uint64 tot_len;
     unsigned int len;
     unsigned char block[2 * SHA256_BLOCK_SIZE];
     uint32 h[8];
 } sha256_ctx;
 
 typedef struct {
-    unsigned int tot_len;
+    uint64 tot_len;
     unsigned int len;
     unsigned char block[2 * SHA512_BLOCK_SIZE];
     uint64 h[8];
